@@ -127,10 +127,10 @@ PLAN = {
             "thorough": (["poll_thorough", "reobs_thorough", "fail_thorough", "attest_thorough"], [("poll", 120, 26, {}), ("reobs", 60, 22, {"MaxReq": 2, "SharedTx": "TRUE"})],
                          [("poll", 260), ("reorg", 120), ("reobs", 320), ("apifail", 80), ("race", 120), ("lag", 160)])},
     "C09": {"quick": (["junk_quick", "live_quick"], [("live", 8, 20, {"MaxReq": 0, "MaxLook": 0, "Mainnets": "{FALSE}"})],
-                      [("race", 16), ("junk", 22), ("hold", 8), ("order", 10), ("reobs", 6)]),
+                      [("race", 16), ("junk", 22), ("hold", 8), ("order", 10), ("reobs", 6), ("apifail", 4)]),
             "thorough": (["junk_thorough", "live_thorough", "live_quick"], [("live", 100, 24, {"MaxReq": 0, "MaxLook": 0, "Mainnets": "{FALSE}"}),
                                                               ("junk", 100, 24, {"MaxReq": 0, "MaxLook": 0, "Mainnets": "{FALSE}"})],
-                         [("race", 300), ("junk", 420), ("hold", 120), ("order", 160), ("reobs", 80)])},
+                         [("race", 300), ("junk", 420), ("hold", 120), ("order", 160), ("reobs", 80), ("apifail", 60)])},
 }
 
 ASSUME_W = [
